@@ -205,51 +205,76 @@ TAG_REMOVERS = {"dedup", "dedup_by", "dedup_by_key", "retain", "retain_mut", "tr
                 "split_off", "sort_unstable", "sort_unstable_by", "sort_unstable_by_key"}
 
 
+def _r6_alts(facts, body, tp, tuple_ret, depth=0):
+    """[(block, alternative expr, verdict, text)] for the tag collection `body` returns; verdict in ok / bad / silent"""
+    out = []
+    for rbb, si, e in assigns_to_return(body):
+        pe = peel(e, through_try=False)
+        if tuple_ret:
+            if pe is None or pe.k != "agg" or len(pe.args or []) < 2:
+                continue
+            tv = peel(pe.args[-1], through_try=False)
+        else:
+            tv = pe
+        alts = tv.alts if (tv is not None and tv.k == "multi" and tv.alts) else [tv]
+        for a in alts:
+            if a is None:
+                continue
+            pa = peel(a, through_try=False)
+            # handed to a function of the crate that builds the list (`self.tags_for_sample(tags, ..)`): judged there
+            if pa is not None and pa.k == "call" and depth < 2 and pa.bb is not None and len(facts.by_q.get(pa.q or "", [])) == 1:
+                hb = facts.by_q[pa.q][0]
+                js = [k for k, x in enumerate(pa.args or []) if any(y.k == "param" and y.idx == tp for y in walk(x))]
+                if len(js) == 1 and js[0] + 1 <= hb.argc and "Tag" in hb.locals[js[0] + 1]["ty"] and "Tag" in (hb.locals[0]["ty"] if hb.locals else ""):
+                    sub = _r6_alts(facts, hb, js[0] + 1, False, depth + 1)
+                    if sub:
+                        out += sub
+                        continue
+            if any(x.k == "param" and x.idx == tp for x in walk(a)):
+                out.append((body, rbb, a, "ok", "the returned tags are built from the `tags` parameter"))
+                continue
+            fresh = [x for x in walk(a) if (x.k == "call" and ((x.q or "").split("::")[-1] in (
+                "new", "with_capacity", "into_vec", "from_elem", "from", "default", "new_uninit", "box_assume_init_into_vec_unsafe")))
+                or (x.k == "agg" and x.ak in ("array",))]
+            flows = False
+            for bb, t in body.calls():
+                if len(t["args"]) >= 2 and (t.get("argtys") or [""])[0].startswith("&mut") \
+                        and any(x.k == "param" and x.idx == tp for a_ in t["args"][1:] for x in walk(body.operand_expr(a_))):
+                    flows = True
+            if fresh and not flows:
+                out.append((body, rbb, a, "bad", show(a)[:80]))
+            else:
+                out.append((body, rbb, a, "silent", "origin of the returned tags not visible: not decided"))
+    return out
+
+
 def rule_r6(facts, col, rule_id="C12.R6"):
     """a per-sample hook hands on the tags it was handed: in every `process_sync_tags(&mut self, sample, tags: &[Tag], ..) ->
     (sample, tags)` (the generated work() of a `sync_tag` block emits exactly the tags the hook returns), each alternative of the
     returned tag collection is built from the `tags` parameter of the first input - borrowed as it is, or copied (`to_vec`,
-    `iter().cloned()`, `extend_from_slice(tags)`) and added to.  An alternative built from fresh values only (`vec![new_tag]`,
-    `Vec::new()`) replaces the sample's tags instead of adding to them: every input tag that sits on such a sample is lost.
-    Reported on affirmative evidence (an alternative that is a fresh collection the parameter never flows into)."""
+    `iter().cloned()`, `extend_from_slice(tags)`) and added to; where the hook hands the parameter to a function of the crate
+    that builds the list, that function's return alternatives are judged the same way (two levels).  An alternative built from
+    fresh values only (`vec![new_tag]`, `Vec::new()`) replaces the sample's tags instead of adding to them: every input tag that
+    sits on such a sample is lost.  Reported on affirmative evidence (a fresh collection the parameter never flows into)."""
     n = 0
     for body in facts.bodies:
         if body.name != "process_sync_tags" or body.kind == "closure":
             continue
-        tparams = [i for i in range(1, body.argc + 1) if body.locals[i]["ty"].replace(" ", "").replace("'a", "").replace("&'", "&")
-                   .replace("&_", "&") in ("&[stream::Tag]",) or body.locals[i]["ty"].endswith("[stream::Tag]")]
+        tparams = [i for i in range(1, body.argc + 1) if body.locals[i]["ty"].endswith("[stream::Tag]")]
         if not tparams:
             continue
-        tp = tparams[0]
-        for rbb, si, e in assigns_to_return(body):
-            pe = peel(e, through_try=False)
-            if pe is None or pe.k != "agg" or len(pe.args or []) < 2:
-                continue
-            tv = peel(pe.args[-1], through_try=False)
-            alts = tv.alts if (tv is not None and tv.k == "multi" and tv.alts) else [tv]
-            for j, a in enumerate(alts):
-                n += 1
-                key = "%s:ret#%d" % (body.q, j)
-                if a is None:
-                    continue
-                if any(x.k == "param" and x.idx == tp for x in walk(a)):
-                    col.ok(rule_id, key, body.where(rbb), "the returned tags are built from the `tags` parameter")
-                    continue
-                fresh = [x for x in walk(a) if (x.k == "call" and ((x.q or "").split("::")[-1] in ("new", "with_capacity", "into_vec", "from_elem", "from", "default", "new_uninit", "box_assume_init_into_vec_unsafe")))
-                         or (x.k == "agg" and x.ak in ("array",))]
-                # does the parameter flow into one of the locals of this alternative later (`v.extend_from_slice(tags)`)?
-                flows = False
-                for bb, t in body.calls():
-                    if len(t["args"]) >= 2 and (t.get("argtys") or [""])[0].startswith("&mut") \
-                            and any(x.k == "param" and x.idx == tp for a_ in t["args"][1:] for x in walk(body.operand_expr(a_))):
-                        flows = True
-                if fresh and not flows:
-                    col.bad(rule_id, key, body.where(rbb),
-                            "process_sync_tags returns, on one of its paths, a tag collection built from fresh values only (%s): the generated "
-                            "work() emits exactly what the hook returns, so every input tag on such a sample is dropped instead of carried "
-                            "forward" % show(a)[:80], {})
-                else:
-                    col.silent(rule_id, key, body.where(rbb), "origin of the returned tags not visible: not decided")
+        for j_, (b2, rbb, a, verdict, text) in enumerate(_r6_alts(facts, body, tparams[0], True)):
+            n += 1
+            key = "%s:ret#%d" % (body.q, j_)
+            if verdict == "ok":
+                col.ok(rule_id, key, b2.where(rbb), text)
+            elif verdict == "bad":
+                col.bad(rule_id, key, b2.where(rbb),
+                        "process_sync_tags returns, on one of its paths, a tag collection built from fresh values only (%s): the generated "
+                        "work() emits exactly what the hook returns, so every input tag on such a sample is dropped instead of carried "
+                        "forward" % text, {})
+            else:
+                col.silent(rule_id, key, b2.where(rbb), text)
     return n
 
 
